@@ -350,6 +350,7 @@ def execute_here(plan):
         counters[k] = counters.get(k, 0) + n
 
     pool_fp = {k: fingerprint(v) for k, v in pool.items() if isinstance(v, np.ndarray)}
+    margin = [0.0]      # worst observed deviation from the law, in units of the tolerance
 
     def check_pool(where):
         for k, fp in pool_fp.items():
@@ -389,7 +390,13 @@ def execute_here(plan):
                             f"{op['c']}(return_units={op['ru']}, input "
                             f"{'with' if op['xu'] else 'without'} units) returned "
                             f"{'a quantity' if has_units else 'a plain array'} {where}", **cls)
-        ok, d, why = compare(mag, expected(op, pool, x), RTOL, 0.0)
+        want_ = np.asarray(expected(op, pool, x), float)
+        ok, d, why = compare(mag, want_, RTOL, 0.0)
+        if ok and want_.size and np.all(np.isfinite(want_)) and mag.shape == want_.shape:
+            den = RTOL * np.maximum(np.abs(want_), np.abs(mag))
+            m_ = den > 0
+            if np.any(m_):
+                margin[0] = max(margin[0], float(np.max(np.abs(mag - want_)[m_] / den[m_])))
         if not ok:
             raise Violation(ID, "differs_from_physical_law",
                             f"{op['c']}(x={op['x']}[{op['xu']}], wl={op['wl']}[{op['wu']}], "
@@ -535,7 +542,7 @@ def execute_here(plan):
     cov = [(tuple(sorted(map(str, shapes_seen)))[:8], tuple(sorted(states_seen))[:4],
             tuple(sorted(faults_seen)))]
     return {"violation": violation, "digest": log.digest(), "steps": steps, "counters": counters,
-            "cov": cov, "nontrivial": nontrivial}
+            "cov": cov, "nontrivial": nontrivial, "margin": margin[0]}
 
 
 # ----------------------------------------------------------------------------
@@ -596,7 +603,9 @@ def extra_evidence(results):
         for k, v in r.get("counters", {}).items():
             if k.startswith("crash:"):
                 pts[k[6:]] = pts.get(k[6:], 0) + v
+    worst = max([r.get("margin", 0.0) for r in results] or [0.0])
     return {"distinct_crash_points_hit": len(pts), "crash_points": sorted(pts),
+            "worst_deviation_from_law_in_units_of_tolerance": float(f"{worst:.3g}"),
             "tolerances": {"rtol_value": RTOL, "rtol_inverse": 1e-12, "rtol_superposition": 1e-12}}
 
 
